@@ -12,6 +12,10 @@ set global configuration, render, new HCommand, help).  impl_run
   3. resets the global state again and renders every (object, configuration content in force) of the
      history on fresh objects / fresh configurations: the reference the oracle compares with.
 The Coq model gets the chunk programs and the identities as oracle values and must predict every text.
+Structural operations (build a late table from another table's .fmt, set_fmt, remove_columns) render nothing: probe and
+reference are taken on a world that replays only the structural operations before the rendering (epochs).  The title
+block of a table is computed by the model (Titles.v).  Every argument object handed to the library is pictured before
+and after each operation of the history (the caller's objects are never modified).
 """
 import ast
 import os
@@ -557,11 +561,27 @@ RULE = ("random histories of 4-14 operations over 1-3 objects (json values, tabl
         "Plus 40 (thorough 300) equal-values histories (cells and keys 1 / True / 1.0, 0 / False / 0.0 / -0.0, 2 / 2.0, '1' through ONE enum field type "
         "shared by 2-3 tables, every modifier, rendered alternately; in two cases of three all cells come from one class of equal values, in four of ten no key of the field type matches, so that the length cache decides the widths) and 12 (160) outliving-help histories (HCommand objects created before / under "
         "another global configuration, set_global_colors_config / registrations in between, help through the OLD objects): regressions of the two "
-        "repaired findings.")
+        "repaired findings.  "
+        "Plus 36 (thorough 300) titles / re-format histories: tables whose column titles have DIFFERENT numbers of lines (1-4; strings with new-lines, "
+        "lists with numbers / keywords), showing different column subsets of ONE record structure -- built from one template format with "
+        "skip_columns, from the .fmt of a table that was rendered before (late construction), over one RecordField list made by the caller, or "
+        "one table re-formatted between renderings (set_fmt, .fmt = ..., remove_columns: structural operations; the reference and the chunk "
+        "program are those of a fresh process that replays the structural operations only).  "
+        "Plus 24 (200) shared-notes histories: console help for a class whose _get_hdoc_method_notes() hook returns ready BoundMethodNotes "
+        "objects (class attributes) / fresh ones / fresh coloured ones, for objects with and without a token, their bound methods, the class "
+        "and its plain functions, through h and hh, in changing order, under a coloured, a no_color and the default global configuration; "
+        "16 (160) enum-width histories (one enum field type, tables whose enum column has different explicit widths, wide before narrow and "
+        "back).  In EVERY history every argument object handed to the library (records, field lists, title / type dicts, RecordField and "
+        "PPTableFormat objects, enum dicts and field types, printed values, report data, notes objects, _HDOC_ATTRS, the dicts given to "
+        "ColorsConfig / add_new_items / remove_columns, the SYNTAX_DEFAULTS of the palette classes, every table's str(fmt)) is pictured before "
+        "and after each operation; one render mode in six USES the result as a text first (get_ch_text / + / += / fixed_len / slices and "
+        "writing to what they return).")
 TRUSTED_BASE = [
     "the chunk program of tables, record formatters, git history reports and console help (which palette accessor colours which text) is taken from the implementation by a probe rendering with an instrumented palette on a fresh copy of the object; their layout code is NOT modelled in Coq (tested: strip(coloured) = no_color on the implementation for objects at the layout thresholds, and the model, fed with the probe's layout, must reproduce the coloured text)",
     "lazy results: which line a generator step yields and which sub-palettes it requests first (the probe records, per line, how many sub-palettes had been requested when the line was yielded) are taken from the probe; the model has no state of its own for the object (format objects, records, service lines): that sibling objects and concurrent generators share nothing is exactly what the comparison with the model (programs of fresh copies) and the fresh-state oracle test",
     "pretty-printer values: the layout IS modelled (coq/C10/Layout.v, pp_obj); str() of numbers and of non-string keys and the order of dict keys (the implementation's _mk_type_sort_value) enter as oracle values",
+    "table title blocks: the rows ARE modelled (coq/C10/Titles.v, title_lines: as many rows as the tallest title among the visible columns, '' below a shorter one; cells padded to the column); the title_lines of the fields and the visible columns are read from a FRESH table before anything is rendered (public attributes table.fmt.repr_structure.columns[i].name / .field.title_lines), the widths from the border line of the probe's program; titles that do not fit their column (truncation) fall back to the probe's rows",
+    "structural operations (late construction from another table's .fmt, set_fmt, remove_columns) have no model operation: they select WHICH program a fresh process prints (programs are probed per epoch on a world that replays the structural operations only)",
     "CPython: id() of a live object is never handed to a new object; an object referenced from a dict key stays alive",
     "the colour description language is modelled for named foreground colours and bold only; add_new_items' eager resolution loop is modelled as following the parent chain in the current map; the re-entrant set_global_colors_config calls are flattened (harness/props/c10.notes.md)",
     "gen/C10_Consts.v: palette class table (SYNTAX_DEFAULTS, PARENT_PALETTES, ConfColor fields through the mro), BUILT_IN_CONFIG, the enum cache key expressions (cache_key = field_palette; val_key = _val_cache_key(value) = (type(value), str(value), value) at all 16 accesses to the by-value dicts), the cache-reset clause of add_new_items and the way HCommand / LLImpl obtain their palette (read-only property _c = self._mk_palette(None, None, None), nothing bound in __init__) are read from the source by harness/props/c10.py:extract (ast, fail-closed) and cross-checked against the imported classes in every implementation run",
@@ -576,7 +596,9 @@ MODELLED = ("ak/color.py ColorsConfig caches / Palette metaclass / CompoundPalet
             "ak/ppobj.py CHTextResult (palette selected by ch_text(), lines produced lazily: OMake / ONext / OWholeH -- results created first, "
             "consumed later, step by step, interleaved) and the PPEnumFieldType cell cache (per palette object, per literal), ak/hdoc.py HCommand (palette looked up per call: help = Render under the global configuration); "
             "ak/ppobj.py PrettyPrinter layout (_gen_ch_lines, _gen_ch_chunks_for_obj: one line below 200, wrapping at 150, indentation) in Layout.v; "
-            "ghist and hdoc formatters, table / record layout: correspondence (with the probe's layout) and oracle only")
+            "ak/ppobj.py table title block (gen_title_lines_ch_chunks_all, _make_table_line, fit_to_width for fitting texts) and the record structure shared by "
+            "the tables of a family (fmt_obj= / set_fmt / remove_columns) in Titles.v; "
+            "ghist and hdoc formatters, the rest of the table / record layout: correspondence (with the probe's layout) and oracle only")
 
 WORDS = ["alpha", "beta", "gamma", "delta", "x", "yy", "zzz", "Active", "Blocked", "n/a", "", "a b", "k9", "Q"]
 USER_SYNTS = ["U.A", "U.B", "U.C", "MYSYN"]
@@ -1991,8 +2013,10 @@ class _World:
             from ak.ghist import GHistReport, ReportFormatter
             if self.rfmt is None:
                 self.rfmt = ReportFormatter()
-            data = _ghist_data(s)
+            keep = []
+            data = _ghist_data(s, keep)
             self.track(f"objs[{idx}]: the report data", data)
+            self.track(f"objs[{idx}]: the builds and commits of the report data", keep)
             rep = GHistReport(data, self.rfmt)
             return ("ghist", GHistReport.GHistPalette, lambda **kw: rep.ch_text(**kw))
         if k == "hdoc":
@@ -2000,7 +2024,9 @@ class _World:
         raise ValueError(k)
 
 
-def _ghist_data(s):
+def _ghist_data(s, keep=None):
+    """keep: a list that receives every build / commit namespace (they are reachable from the report data only through
+    the accessor functions, which the pictures of the caller's objects do not call)"""
     from types import SimpleNamespace as NS
     from ak.ghist import BuildNumData
 
@@ -2026,6 +2052,8 @@ def _ghist_data(s):
                         bumps={c: NS(to_buildnum=bn(t), from_build_nums=[bn(f) for f in fr]) for c, t, fr in x["bumps"]},
                         get_printable_rcommits=(lambda cs=commits: cs))
                 builds.append(rb)
+                if keep is not None:
+                    keep.append([rb, commits])
             branches.append(NS(branch_name=b["name"], get_rbuilds_list=(lambda bs=builds: bs)))
         data.append((r["id"], NS(branches=branches)))
     return data
@@ -3129,7 +3157,9 @@ TECHNIQUE = ("Coq proofs over an executable Gallina world model with explicit ob
              "identities as oracle values; the layout of pretty-printer values is computed by a Gallina model of the layout code and compared "
              "at the 200 / 150 thresholds) + class table / enum cache keys (palette object; (type, text, value) of the cell value) / cache reset clause / "
              "'HCommand looks its palette up per call' regenerated from the source (the proofs need all four: source_facts) + independent "
-             "fresh-state oracle on the implementation (strip(coloured) = no_color on objects AT the layout thresholds of every formatter)")
+             "fresh-state oracle on the implementation (strip(coloured) = no_color on objects AT the layout thresholds of every formatter; "
+             "the reference of a rendering is a fresh process that replays only the structural operations; every argument object handed to the "
+             "library is compared with its picture before the operation: the caller's objects are never modified)")
 LEVEL_TEXT = ("Model level, unbounded histories / objects / allocation oracles, guards: user syntax items in the modelled colour language, "
               "no palette requested with synced=True (the former guard 'no Python-equal enum values in one field type' is gone: "
               "enum_equality_irrelevant).  "
@@ -3152,6 +3182,12 @@ LEVEL_TEXT = ("Model level, unbounded histories / objects / allocation oracles, 
               "results of the same object created and consumed, renderings, registrations, drops -- happen between its creation and its "
               "consumption; every object, tables included), interleave_example.  Not a theorem: the coloured history form for compound objects "
               "(sub-palettes are requested when the lines are produced; same cold/warm caveat as below).  "
+              "TABLE TITLE BLOCK (Titles.v models gen_title_lines_ch_chunks_all + the record structure a family of tables shares): title_block_height "
+              "(rows = the tallest title among the VISIBLE columns), title_block_strip_layout (a table program with the model's title block meets the guard "
+              "of strip_layout), title_block_no_memory (after any history of renderings / new column sets / removed columns over the tables of a family the "
+              "fields are what they were when made, a table prints the block of its current columns over them, and the same block as after the history "
+              "with the renderings left out), title_block_example (the shape of seeded change C10-m5); tied to the code by correspondence: every table program "
+              "of every history carries the model's title block (fitting titles).  "
               "GUARDED: history_independent_compound_warm (tables / record formatters in colour: closed formula of object + configuration "
               "once every syntax id used by the object's palette classes is present and resolved in the configuration, i.e. from the second "
               "rendering on; warm_satisfiable shows a fresh configuration is cold and one rendering warms it).  "
@@ -3174,9 +3210,12 @@ LEVEL_TEXT = ("Model level, unbounded histories / objects / allocation oracles, 
               "id_keyed_cache_refuted shows the repaired defect enum-cache-id-reuse on the model with the cache keyed by id(palette) (the proofs need source_facts).  "
               "TESTED ONLY (correspondence + fresh-state oracle, not theorems): the layout code of tables and record formatters (column widths, "
               "padding, truncation, header / footer / service lines), the git history report and console help formatters (for them strip(colored) = "
-              "no_color, no ESC in no_color, whole = lines and order independence are checked on the implementation's output, on objects generated "
+              "no_color, no ESC in no_color, whole = lines and order independence are checked on the implementation's output -- console help also for classes whose "
+              "_get_hdoc_method_notes() hook returns shared notes objects, for objects / bound methods / classes in changing order --, on objects generated "
               "AT the layout thresholds under configurations that colour every syntax id, TEXT included), len / fixed_len / format / slices of result "
-              "objects, synced palettes, equality with a FRESH configuration for coloured renderings; the pretty-printer layout model is tied to the "
+              "objects and that what they return may be written to, 'the caller's objects are never modified' (pictures of every argument object before / after each "
+              "operation: oracle clause caller-object-modified), re-formatting between renderings (set_fmt / remove_columns / late fmt_obj: compared with the model through "
+              "the per-epoch programs), synced palettes, equality with a FRESH configuration for coloured renderings; the pretty-printer layout model is tied to the "
               "code by correspondence only (values at 200 +-3 and wrapped lists in every run).")
 LEVEL_NOTE = ("Trusted: Coq kernel + vm_compute; fidelity of the hand-written world model (checked by correspondence on whole histories, not "
               "proved); the chunk programs of the objects are taken from the implementation by a probe rendering; the ast extractor "
